@@ -10,6 +10,8 @@ CLAIMED = {
  'C20': dict(text="Theorems (props/C20.v, closed under the global context) state for ALL connector tables that the model of NeuronConnector yields exactly one edge per (pre row, post row) pair with multiplicity, __OTHER__ exactly when requested, that adjacency/digraph/multigraph are views of one edge multiset and that SUM-grouping conserves totals; the hand-written model is tied to /repo on every run by evaluating it (vm_compute) on the same random tables as the real NeuronConnector/group_matrix and diffing canonical outputs.",
              technique="Coq proof over an executable Gallina model + differential correspondence (coqc vm_compute vs navis)", ref="6/C20"),
 }
+CLAIMED['C01'] = dict(text="History theorem C01_history_wf (props/C01.v): for EVERY finite sequence over the modelled operation alphabet (subset, contraction, reroot, cut distal/proximal, node insertion, id relabelling, concatenation, fragment join, identity) with arbitrary parameters, a well-formed forest stays well formed (unique ids, parents present, acyclic via a rank function); per-operation theorems; wfb_iff proves the boolean checker exact. Tie: random histories of real navis operations, every table left behind is decided by the verified checker evaluated in Coq (plus type labels = classify, no missing values, soma membership) and, for modelled operations, compared with model/Ops.v step by step.",
+             technique="Coq proof by induction over operation histories + verified boolean checker run on implementation outputs + stepwise differential correspondence", ref="6/C01")
 PENDING = {}
 props = [json.loads(l) for l in open(os.path.join(V, 'properties.jsonl'))]
 checks, na = [], []
